@@ -245,6 +245,9 @@ func (c10) Run(c core.Case, w *core.Worker) core.Result {
 		calllog = append(calllog, fmt.Sprintf("-- new iterator reverse=%v prefix=%q snapshot=%d keys", reverse, prefix, len(snap)))
 		pos := -1 // -1 = fresh (unpositioned)
 		ncalls := r.Range(5, 200)
+		// every second iterator passes all its Seek targets through ONE recycled buffer
+		reuseSeek := r.Chance(1, 2)
+		var seekBuf []byte
 		seekAfterNext, rewindAfterEx, lastWasNext := false, false, false
 		cmpState := func(call string) bool {
 			res.Add("iter_calls_compared", 1)
@@ -374,7 +377,13 @@ func (c10) Run(c core.Case, w *core.Worker) core.Result {
 						seekAfterNext = true
 					}
 					res.Add("seeks", 1)
-					ut.Seek(target)
+					if reuseSeek {
+						seekBuf = append(seekBuf[:0], target...)
+						ut.Seek(seekBuf)
+						res.Add("seeks_through_recycled_buffer", 1)
+					} else {
+						ut.Seek(target)
+					}
 					if !(pos >= len(snap) && pos >= 0) {
 						np := sort.Search(len(snap), func(i int) bool {
 							c := bytes.Compare(snap[i].k, target)
